@@ -31,6 +31,18 @@ type srcErr struct{ id int }
 
 func (e *srcErr) Error() string { return fmt.Sprintf("source error %d", e.id) }
 
+// Unwrap makes some scripted errors wrap a context error (errors.Is(err, context.Canceled) holds for them although
+// they did not come from any context of the scenario): the library must report such an error like any other.
+func (e *srcErr) Unwrap() error {
+	switch e.id % 3 {
+	case 0:
+		return context.Canceled
+	case 1:
+		return context.DeadlineExceeded
+	}
+	return nil
+}
+
 // timerWatch: "a timer of the batcher may still fire" = less than maxWait+margin of the process's
 // own timer time has passed since the last event that can start one (an item reaching the batcher,
 // a consumer announcing itself, full returning) or since the scenario was last seen active. It is
